@@ -20,6 +20,7 @@ CEX_MAIN {
   fprintf(stderr, "values:"); for (int i = 0; i < n; i++) fprintf(stderr, " %g", (double)vals[i]);
   fprintf(stderr, " -> min=%g max=%g\n", (double)mn, (double)mx);
   for (int i = 0; i < n; i++) if (vals[i] == vals[i]) {
+    CEX_CHECK(b->has_min && b->has_max, "a number was added but the builder has no bounds");
     CEX_CHECK(mn <= vals[i], "builder min is not a lower bound of a non-NaN value (IEEE order)");
     CEX_CHECK(vals[i] <= mx, "builder max is not an upper bound of a non-NaN value (IEEE order; max is NaN)");
   }
